@@ -21,7 +21,8 @@ def src_hash(repo):
                 "orix/vector/vector3d.py", "orix/vector/neo_euler.py", "orix/vector/spherical_region.py", "orix/constants.py"]:
         p = os.path.join(repo, rel)
         h.update(open(p, "rb").read() if os.path.exists(p) else b"missing")
-    for f in (os.path.join(VERIF, "tools", "impl", "c05cert.py"), os.path.join(VERIF, "tools", "lib", "kfield.py"), __file__):
+    for f in (os.path.join(VERIF, "tools", "impl", "c05cert.py"), os.path.join(VERIF, "tools", "impl", "c07cert.py"),
+              os.path.join(VERIF, "tools", "lib", "kfield.py"), __file__):
         h.update(open(f, "rb").read())
     return h.hexdigest()
 
@@ -29,9 +30,9 @@ def src_hash(repo):
 def unit_regions(repo):
     h = src_hash(repo)
     idx = os.path.join(GEN, "RegionCertsAll.v")
-    if os.path.exists(idx) and h in open(idx).readline():
+    if os.path.exists(idx) and os.path.exists(os.path.join(GEN, "RegionExistAll.v")) and h in open(idx).readline():
         return "RegionCertsAll.v", open(idx).read()
-    for f in glob.glob(os.path.join(GEN, "RegionCerts*.v")):
+    for f in glob.glob(os.path.join(GEN, "RegionCerts*.v")) + glob.glob(os.path.join(GEN, "RegionExist*.v")):
         os.remove(f)
     env = dict(os.environ)
     env.update(PYTHONPATH=repo, PYTHONHASHSEED="0", NUMBA_CACHE_DIR=os.path.join(VERIF, "build", "numba"),
